@@ -182,6 +182,39 @@ fn arb_long_list() -> BoxedStrategy<String> {
         .boxed()
 }
 
+/// one insertion / deletion / replacement at a character boundary of a well-formed list
+fn arb_mutated() -> BoxedStrategy<String> {
+    (
+        proptest::collection::vec(arb_code(), 1..=5).prop_map(|v| v.join(";")),
+        any::<prop::sample::Index>(),
+        0u8..3,
+        prop::sample::select(vec![':', ';', ' ', '+', '-', '0', '9', 'a', 'm', 'é', '\t', '\n', ',', '.', '\u{0}', '\u{ff10}', '\u{1b}', '[']),
+        prop::bool::weighted(0.3),
+    )
+        .prop_map(|(s, ix, kind, ch, at_end)| {
+            let p = if at_end { s.len() } else { ix.index(s.len() + 1) };
+            let mut t = s.clone();
+            match kind {
+                0 => t.insert(p, ch),
+                1 => {
+                    if p < t.len() {
+                        t.remove(p);
+                    } else {
+                        t.pop();
+                    }
+                }
+                _ => {
+                    if p < t.len() {
+                        t.remove(p);
+                    }
+                    t.insert(p.min(t.len()), ch);
+                }
+            }
+            t
+        })
+        .boxed()
+}
+
 fn arb_malformed() -> BoxedStrategy<String> {
     let bad = prop::sample::select(vec![
         "", "-", "-1", " 1", "1 ", "256", "300", "999999999999", "99999999999999999999999", "١", "１", "1a", "a", "0x1", "1.0", ":", "1:2", "\u{0}", "é", " ", "+", "++1", "+-1", "1e2", "²",
@@ -330,6 +363,8 @@ fn run(args: &Args, rep: &mut Report) {
         prop_par("random-lists", args.seed, tier.pick(60_000, 10_000_000), arb_list, body, |s| json!(s)));
     rep.add("long-lists", false, "15..1027 fields (around powers of two) of well-formed codes ending in a deciding code (a code, 0, 256, a non-number, an empty field)",
         prop_par("long-lists", args.seed, tier.pick(8_000, 400_000), arb_long_list, body, |s| json!(s)));
+    rep.add("single-edit-mutations", false, "one insert / delete / replace (separators, signs, digits, letters, controls, non-ASCII) at any position of a well-formed list, often at its end",
+        prop_par("single-edit-mutations", args.seed, tier.pick(60_000, 5_000_000), arb_mutated, body, |s| json!(s)));
     rep.add("malformed", false, "lists with empty fields, signs, spaces, > 255, huge numbers, non-ASCII digits, trailing ';'",
         prop_par("malformed", args.seed, tier.pick(60_000, 10_000_000), arb_malformed, body, |s| json!(s)));
     rep.add("arbitrary-unicode", false, "arbitrary strings",
